@@ -56,6 +56,7 @@ def handleGrid (j : Json) : R Json := do
     let col (x : List (List Rat) × List (List Rat)) : Json := Json.arr #[ofVecss x.1, ofVecss x.2]
     let lin := G.apply Ls (G.affineU A b) (G.affineBc A b)
     pure (obj [("wf", Json.bool wf), ("admissible", Json.bool G.admissible), ("certified", Json.bool true),
+               ("manifold", Json.bool G.manifold),
                ("cellcols", ofList col cc), ("facecols", ofList col fc), ("lin", col lin)])
 
 def handle (j : Json) : R Json := do
